@@ -997,6 +997,15 @@ theorem C11_streaming_filtered_load (T : STree) (nm : Naming) (inp : Input) (f :
   | error e => rfl
   | ok r => simp only [Except.bind]; exact Sax.buildHamSax_eq T nm inp _ _
 
+/-- the FIRST pass of a filtered load (`FilterOrthoXMLParser`, again a parser target with a stack and flags) run over the same
+    event stream selects exactly the gene ids and family ids of the recursive first pass, in the same order, and ends in its
+    initial control state -- for every file without a geneRef outside every orthologGroup (the second pass rejects those) -/
+theorem C11_first_pass_machine (f : Filter) (groups : List Elem) (gids : List String)
+    (h : Sax.noTopRefL groups = true) :
+    Sax.frun f (Sax.eventsL groups) { gids := gids } =
+      (filterTops f groups (gids, [])).map fun r => { gids := r.1, hids := r.2 } :=
+  Sax.f_groups f groups gids h
+
 /-- wherever in the stream the fault occurs: once a call raises, the run has failed with that exception, whatever follows
     (nothing after the faulty call is read, no state is returned) -/
 theorem C20_stream_stops_at_fault (env : Env) (flt : HogFilter) (before after : List Sax.Ev) (m : Sax.MS) (e : Err)
